@@ -1,7 +1,7 @@
 CONSTANTS
   XSet <- XSix
-  LatticeK = 4
-  FailMags = {1, 3, 5, 10}
+  LatticeK = 3
+  FailMags = {1, 3, 10}
 SPECIFICATION Spec
 CHECK_DEADLOCK FALSE
 INVARIANT TypeOK
